@@ -1,14 +1,14 @@
 SPECIFICATION Spec
-CONSTANTS MaxLen = 5
-  Pool <- Pool4U
-  Starts <- StartsAll
-  Xs = {1, 2}
+CONSTANTS MaxLen = 2
+  Pool <- PoolA7
+  Starts <- StartsA
+  Xs = {2}
   Nested = FALSE
   Ys <- NoData
   Extra <- NoElems
   Variant = "doc"
   CopyVarContext = TRUE
   ExtendByCompose = TRUE
-  PathKeys = FALSE
-INVARIANT Emitted
+  PathKeys = TRUE
+INVARIANT TypesAvailable
 CHECK_DEADLOCK FALSE
